@@ -12,7 +12,9 @@ EXPLANATION = (
     "arrays (alias analysis with view/fresh classification and fresh-return summaries); (R18.3) greedy-loop exits: in grou, gta, "
     "gta_ls, als, als1, aca, aca_lr, aca_3d every loop exit is the tolerance test or the rank/iteration limit; (R18.4) one index "
     "normaliser: every __getitem__ goes through _normalize_indices or delegates to children that do; (R18.5) entry generators "
-    "return what they wrap.")
+    "return what they wrap; (R18.6) cumulative error budgets: a local initialised to a literal before an approximation loop and "
+    "tested against a tolerance inside it (find_truncation_rank's discarded energy) is updated in the loop on every path that "
+    "continues.")
 DOES_NOT_DECIDE = "any homomorphism with full-array expansion, truncation/approximation error bounds, orthonormality"
 TECHNIQUE = "custom AST rules: class/method matrix, alias/effect analysis, loop-exit classification, delegation check"
 
